@@ -1,12 +1,562 @@
-//! C01 — not built yet (stub; see DESIGN.md §5).
-use crate::ctx::Tier;
-use serde_json::Value;
+//! C01 — wire frames: canonical 48-byte layout, lossless round trip, one encoding.
+//!
+//! Bounded-exhaustive enumeration of logical messages (header fields over
+//! boundary classes x query/body lengths over a boundary list x body-buffer
+//! capacity relations x builder-made bodies) and of every emission route and
+//! parser of the crate; each execution is compared with the independent
+//! field-table oracle `crate::frames` (anchored on the Glaze-produced interop
+//! fixtures at the start of every run). Server-side emission is decided on raw
+//! loopback sockets (`Server`, `AsyncServer`) and on an in-memory duplex
+//! (`SharedWebSocketServer`) in `c01_server.rs`.
+//!
+//! Oracle clauses
+//!  O1 bytes == Hdr::encode (offsets 0,8,10,11,12,16,24,32,40,42,44; LE) ++ query ++ body,
+//!     with length == 48+q+b                           (property sentence 1)
+//!  O2 every route's bytes equal the oracle, hence pairwise identical (sentence 3)
+//!  O3 every parser returns exactly the encoded fields, query and body,
+//!     incl. reserved bits and unknown format codes     (sentence 2)
 
-pub fn run(_tier: Tier) -> ! {
-    eprintln!("MACHINERY-ERROR property=C01 check not built yet");
-    std::process::exit(2)
+#[path = "c01_local.rs"]
+mod local;
+#[path = "c01_server.rs"]
+mod server;
+
+use crate::ctx::{Ctx, Samples, Tier, verif_root};
+use crate::frames::{HEADER, Hdr, SPEC};
+use crate::par;
+use local::{Bad, RawCfg, Stats, TypedCfg};
+use serde_json::{Value, json};
+use std::collections::BTreeMap;
+use std::path::PathBuf;
+
+// ------------------------------------------------------------------ alphabet
+
+const U8C: [u8; 5] = [0, 1, 2, 0x7f, 0xff];
+const U16C: [u16; 9] = [0, 1, 2, 3, 4, 0xff, 0x100, 0x7fff, 0xffff];
+const U32C: [u32; 6] = [0, 1, 0xffff, 0x1_0000, 0x7fff_ffff, 0xffff_ffff];
+const U64C: [u64; 9] = [0, 1, 1 << 8, 1 << 16, (1 << 32) - 1, 1 << 32, 1 << 63, u64::MAX, 0x0102_0304_0506_0708];
+/// spec is fixed at 0x1507 wherever a frame is parsed; the other values are encode-only
+const SPECC: [u16; 5] = [SPEC, 0, 1, 0x0715, 0xffff];
+
+/// query and body lengths (both tiers: the full 17 x 17 grid)
+const LENS: [usize; 17] = [0, 1, 2, 7, 8, 47, 48, 49, 255, 256, 4095, 4096, 8191, 8192, 8193, 65535, 65536];
+/// representatives beyond 64 KiB (q, b)
+const BIG: [(usize, usize); 3] = [(7, 65537), (7, 1 << 20), (65537, (1 << 24) + 1)];
+
+const UNL: usize = usize::MAX;
+
+/// typical request header
+fn base_a() -> Hdr {
+    Hdr { spec: SPEC, version: 1, notify: 0, reserved: 0, id: 1, query_format: 1, body_format: 2, ec: 0, ..Default::default() }
+}
+/// every field non-zero, every byte of every field distinct
+fn base_b() -> Hdr {
+    Hdr { spec: SPEC, version: 0x11, notify: 0x22, reserved: 0x3344_5566, id: 0x0102_0304_0506_0708, query_format: 0x7788, body_format: 0x99aa, ec: 0xbbcc_ddee, ..Default::default() }
 }
 
-pub fn replay(_case: &Value) -> Result<(), String> {
-    Err("no replay for C01 yet".into())
+fn hkey(h: &Hdr) -> (u16, u8, u8, u32, u64, u16, u16, u32) {
+    (h.spec, h.version, h.notify, h.reserved, h.id, h.query_format, h.body_format, h.ec)
+}
+
+/// Single-field sweeps around the two base headers (de-duplicated, stable order).
+fn sweep_headers() -> Vec<Hdr> {
+    let mut out: Vec<Hdr> = Vec::new();
+    let mut seen = std::collections::BTreeSet::new();
+    let mut push = |h: Hdr| {
+        if seen.insert(hkey(&h)) {
+            out.push(h);
+        }
+    };
+    for base in [base_a(), base_b()] {
+        push(base);
+        for v in U8C {
+            push(Hdr { version: v, ..base });
+            push(Hdr { notify: v, ..base });
+        }
+        for v in U32C {
+            push(Hdr { reserved: v, ..base });
+            push(Hdr { ec: v, ..base });
+        }
+        for v in U64C {
+            push(Hdr { id: v, ..base });
+        }
+        for v in U16C {
+            push(Hdr { query_format: v, ..base });
+            push(Hdr { body_format: v, ..base });
+        }
+        for v in SPECC {
+            push(Hdr { spec: v, ..base });
+        }
+    }
+    out
+}
+
+/// Full product of per-field classes (radix decoding of `i`).
+struct Product {
+    ver: Vec<u8>,
+    ntf: Vec<u8>,
+    rsv: Vec<u32>,
+    id: Vec<u64>,
+    qf: Vec<u16>,
+    bf: Vec<u16>,
+    ec: Vec<u32>,
+}
+impl Product {
+    fn new(tier: Tier) -> Product {
+        match tier {
+            Tier::Thorough => Product { ver: U8C.to_vec(), ntf: U8C.to_vec(), rsv: U32C.to_vec(), id: U64C.to_vec(), qf: U16C.to_vec(), bf: U16C.to_vec(), ec: U32C.to_vec() },
+            Tier::Quick => Product {
+                ver: vec![0, 1, 0xff],
+                ntf: vec![0, 1, 0xff],
+                rsv: vec![0, 1, 0xffff_ffff],
+                id: vec![0, 0x0102_0304_0506_0708, u64::MAX],
+                qf: vec![0, 1, 0xffff],
+                bf: vec![0, 2, 0xffff],
+                ec: vec![0, 1, 0xffff_ffff],
+            },
+        }
+    }
+    fn len(&self) -> u64 {
+        (self.ver.len() * self.ntf.len() * self.rsv.len() * self.id.len() * self.qf.len() * self.bf.len() * self.ec.len()) as u64
+    }
+    fn get(&self, mut i: u64) -> Hdr {
+        let mut d = |n: usize| {
+            let r = (i % n as u64) as usize;
+            i /= n as u64;
+            r
+        };
+        Hdr {
+            spec: SPEC,
+            ec: self.ec[d(self.ec.len())],
+            body_format: self.bf[d(self.bf.len())],
+            query_format: self.qf[d(self.qf.len())],
+            id: self.id[d(self.id.len())],
+            reserved: self.rsv[d(self.rsv.len())],
+            notify: self.ntf[d(self.ntf.len())],
+            version: self.ver[d(self.ver.len())],
+            ..Default::default()
+        }
+    }
+}
+
+const PRODUCT_LENS_QUICK: [(usize, usize); 2] = [(0, 0), (1, 2)];
+fn product_lens(tier: Tier) -> Vec<(usize, usize)> {
+    match tier {
+        Tier::Quick => PRODUCT_LENS_QUICK.to_vec(),
+        Tier::Thorough => {
+            let l = [0usize, 1, 2, 7, 8, 47, 48, 49, 255, 256];
+            l.iter().flat_map(|&q| l.iter().map(move |&b| (q, b))).collect()
+        }
+    }
+}
+
+// ------------------------------------------------------------------ fixtures anchor
+
+fn repo_dir() -> PathBuf {
+    if let Some(p) = std::env::var_os("REPE_REPO") {
+        return PathBuf::from(p);
+    }
+    let root = verif_root();
+    root.parent().map(|p| p.join("repo")).unwrap_or_else(|| PathBuf::from("/repo"))
+}
+
+/// The oracle must reproduce every Glaze-produced fixture from the manifest's
+/// field values (machinery error otherwise); the crate must encode the same
+/// fields to the same bytes and parse the bytes back to the same fields.
+fn anchor_fixtures(ctx: &Ctx, st: &mut Stats) -> (usize, Vec<Bad>) {
+    let dir = repo_dir().join("interop/fixtures");
+    let man: Value = match std::fs::read(dir.join("manifest.json")).map_err(|e| e.to_string()).and_then(|b| serde_json::from_slice(&b).map_err(|e| e.to_string())) {
+        Ok(v) => v,
+        Err(e) => ctx.machinery(format!("cannot read {}/manifest.json: {e}", dir.display())),
+    };
+    let version: u8 = man["repe_version"].as_str().and_then(|s| s.parse().ok()).unwrap_or_else(|| ctx.machinery("manifest repe_version"));
+    let fixtures = man["fixtures"].as_array().cloned().unwrap_or_default();
+    let mut on_disk: Vec<String> = std::fs::read_dir(&dir)
+        .map(|rd| rd.filter_map(|e| e.ok()).filter_map(|e| e.file_name().to_str().and_then(|n| n.strip_suffix(".repe")).map(str::to_string)).collect())
+        .unwrap_or_default();
+    on_disk.sort();
+    let mut named: Vec<String> = fixtures.iter().filter_map(|f| f["name"].as_str().map(str::to_string)).collect();
+    named.sort();
+    if on_disk != named || named.is_empty() {
+        ctx.machinery(format!("fixture files {on_disk:?} do not match the manifest entries {named:?}"));
+    }
+    let mut bads = Vec::new();
+    for f in &fixtures {
+        let name = f["name"].as_str().unwrap();
+        let file = std::fs::read(dir.join(format!("{name}.repe"))).unwrap_or_else(|e| ctx.machinery(format!("read fixture {name}: {e}")));
+        let g = |k: &str| f[k].as_u64().unwrap_or_else(|| ctx.machinery(format!("fixture {name}: field {k}")));
+        let query = f["query"].as_str().unwrap_or("").as_bytes().to_vec();
+        let (ql, bl) = (g("query_length") as usize, g("body_length") as usize);
+        let body: Vec<u8> = match f["body_kind"].as_str().unwrap_or("") {
+            "json" => f["body_json"].as_str().unwrap_or("").as_bytes().to_vec(),
+            "utf8" => f["body_text"].as_str().unwrap_or("").as_bytes().to_vec(),
+            "none" => Vec::new(),
+            // BEVE payload bytes are opaque to the frame layer: taken from the file tail
+            _ => file.get(HEADER + ql..).map(|s| s.to_vec()).unwrap_or_default(),
+        };
+        let h = Hdr {
+            length: g("length"),
+            spec: SPEC,
+            version,
+            notify: g("notify") as u8,
+            reserved: 0,
+            id: g("id"),
+            query_length: ql as u64,
+            body_length: bl as u64,
+            query_format: g("query_format") as u16,
+            body_format: g("body_format") as u16,
+            ec: g("ec") as u32,
+        };
+        let oracle = local::oracle_bytes(&h, &query, &body);
+        if oracle != file || h.consistent_total() != Some(file.len() as u128) || query.len() != ql || body.len() != bl {
+            ctx.machinery(format!("layout oracle does not reproduce interop fixture {name} from its manifest fields"));
+        }
+        // crate side: same fields -> same bytes, same bytes -> same fields
+        let msg = repe::Message { header: local::to_header(&h), query: query.clone(), body: body.clone() };
+        st.states += 1;
+        st.transitions += 2;
+        *st.routes.entry("fixture:to_vec").or_insert(0) += 1;
+        *st.routes.entry("fixture:from_slice_exact").or_insert(0) += 1;
+        if msg.to_vec() != file {
+            bads.push(Bad { key: "C01:fixture:Message::to_vec".into(), what: format!("Message::to_vec of the manifest fields of fixture {name} differs from the Glaze-produced frame") });
+        }
+        match repe::Message::from_slice_exact(&file) {
+            Ok(m) if local::hdr_diff(&m.header, &h).is_empty() && m.query == query && m.body == body => {}
+            other => bads.push(Bad {
+                key: "C01:fixture:Message::from_slice_exact".into(),
+                what: format!("parsing fixture {name} does not return the manifest fields: {:?}", other.map(|m| m.header)),
+            }),
+        }
+    }
+    (fixtures.len(), bads)
+}
+
+// ------------------------------------------------------------------ driver
+
+struct Worker {
+    st: Stats,
+    /// key -> (global order, what, case)
+    bad: BTreeMap<String, (u64, String, Value)>,
+    total_bad: u64,
+}
+impl Worker {
+    fn new() -> Worker {
+        Worker { st: Stats::default(), bad: BTreeMap::new(), total_bad: 0 }
+    }
+    fn record(&mut self, order: u64, bads: Vec<Bad>, case: impl Fn() -> Value) {
+        for b in bads {
+            self.total_bad += 1;
+            let e = self.bad.entry(b.key).or_insert_with(|| (u64::MAX, String::new(), Value::Null));
+            if order < e.0 {
+                *e = (order, b.what, case());
+            }
+        }
+    }
+}
+
+fn guarded<F: FnOnce(&mut Stats) -> Vec<Bad>>(st: &mut Stats, what: &str, f: F) -> Vec<Bad> {
+    match std::panic::catch_unwind(std::panic::AssertUnwindSafe(|| {
+        let mut fresh = Stats::default();
+        let b = f(&mut fresh);
+        (fresh, b)
+    })) {
+        Ok((l, b)) => {
+            st.merge(&l);
+            b
+        }
+        Err(p) => {
+            st.panics += 1;
+            let msg = p.downcast_ref::<String>().cloned().or_else(|| p.downcast_ref::<&str>().map(|s| s.to_string())).unwrap_or_default();
+            vec![Bad { key: "C01:panic".into(), what: format!("panic while emitting/parsing {what}: {msg}") }]
+        }
+    }
+}
+
+fn typed_space(tier: Tier) -> Vec<TypedCfg> {
+    let ns: &[usize] = tier.pick(&[0, 1, 7, 8, 256, 8192][..], &[0, 1, 2, 7, 8, 255, 256, 4095, 4096, 8192][..]);
+    let qs: &[usize] = tier.pick(&[0, 1, 7, 48, 255, 4096][..], &LENS[..]);
+    let hs = [Hdr { body_format: 1, ..base_a() }, Hdr { body_format: 1, ..base_b() }];
+    let mut v = Vec::new();
+    for h in hs {
+        for elem in local::ELEMS {
+            for &n in ns {
+                for &q in qs {
+                    for query_first in [true, false] {
+                        v.push(TypedCfg { h, elem, n, q, query_first, sinks: vec![UNL, 1, 7, 48] });
+                    }
+                }
+            }
+        }
+    }
+    v
+}
+
+fn raw_header_space() -> Vec<Hdr> {
+    let lens: [u64; 8] = [0, 1, 0xffff, (1 << 32) - 1, 1 << 32, 1 << 62, 0x0102_0304_0506_0708, u64::MAX - 48];
+    let mut v = Vec::new();
+    for base in [base_a(), base_b()] {
+        for q in lens {
+            for b in lens {
+                if let Some(total) = 48u64.checked_add(q).and_then(|s| s.checked_add(b)) {
+                    v.push(Hdr { length: total, query_length: q, body_length: b, ..base });
+                }
+            }
+        }
+    }
+    v
+}
+
+pub fn run(tier: Tier) -> ! {
+    let ctx = Ctx::new("C01", tier);
+    let samples = Samples::new(6);
+    let prev_hook = std::panic::take_hook();
+    std::panic::set_hook(Box::new(|_| {}));
+
+    let mut total = Worker::new();
+
+    // 0. anchor the oracle
+    let (n_fixtures, fb) = anchor_fixtures(&ctx, &mut total.st);
+    total.record(0, fb, || json!({"block": "fixtures"}));
+    let mut order_base: u64 = 1;
+
+    let merge = |total: &mut Worker, ws: Vec<Worker>| {
+        for w in ws {
+            total.st.merge(&w.st);
+            total.total_bad += w.total_bad;
+            for (k, v) in w.bad {
+                let e = total.bad.entry(k).or_insert_with(|| (u64::MAX, String::new(), Value::Null));
+                if v.0 < e.0 {
+                    *e = v;
+                }
+            }
+        }
+    };
+
+    // observation (not a C01 clause): the validated constructor does not look at header.length
+    {
+        let mut h = local::to_header(&base_a());
+        h.query_length = 1;
+        h.body_length = 1;
+        h.length = 0;
+        if let Ok(m) = repe::Message::new(h, vec![b'q'], vec![b'b']) {
+            if repe::Message::from_slice(&m.to_vec()).is_err() {
+                ctx.note("observation: Message::new accepts a header whose `length` disagrees with 48+q+b (only query_length/body_length are validated); such a message serialises to a frame its own parser rejects. Caller-made inconsistent headers are outside C01's enumerated space.");
+            }
+        }
+    }
+
+    // 1. block L: single-field sweeps x lengths x lengths (x 5 capacity relations inside)
+    let sweeps = sweep_headers();
+    let lens: &[usize] = &LENS[..];
+    let sinks_l: &[usize] = tier.pick(&[UNL, 1, 7, 48][..], &[UNL, 1, 2, 7, 47, 48, 49, 4096][..]);
+    let nl = lens.len() as u64;
+    let n_l = sweeps.len() as u64 * nl * nl;
+    let cfg_l = |i: u64| -> RawCfg {
+        // large lengths vary slowest inside a header so that blocks balance
+        let bi = (i % nl) as usize;
+        let qi = ((i / nl) % nl) as usize;
+        let hi = (i / (nl * nl)) as usize;
+        RawCfg { h: sweeps[hi], q: lens[qi], b: lens[bi], sinks: sinks_l.to_vec(), light: false }
+    };
+    samples.offer(|| cfg_l(0).to_json());
+    samples.offer(|| cfg_l(n_l - 1).to_json());
+    let ws = par::for_each_index(n_l, 4, |_| Worker::new(), |w, i| {
+        let cfg = cfg_l(i);
+        let bads = guarded(&mut w.st, "raw message", |st| local::check_raw(&cfg, st));
+        w.record(order_base + i, bads, || cfg.to_json());
+    });
+    merge(&mut total, ws);
+    order_base += n_l;
+
+    // 2. block H: product of field classes x two small length pairs
+    let prod = Product::new(tier);
+    let plens = product_lens(tier);
+    let n_h = prod.len() * plens.len() as u64;
+    let cfg_h = |i: u64| -> RawCfg {
+        let (q, b) = plens[(i % plens.len() as u64) as usize];
+        RawCfg { h: prod.get(i / plens.len() as u64), q, b, sinks: vec![UNL, 7], light: true }
+    };
+    samples.offer(|| cfg_h(n_h / 2 + 1).to_json());
+    let ws = par::for_each_index(n_h, 256, |_| Worker::new(), |w, i| {
+        let cfg = cfg_h(i);
+        let bads = guarded(&mut w.st, "raw message", |st| local::check_raw(&cfg, st));
+        w.record(order_base + i, bads, || cfg.to_json());
+    });
+    merge(&mut total, ws);
+    order_base += n_h;
+
+    // 3. block G: three representatives beyond 64 KiB
+    let n_g = (BIG.len() * 2) as u64;
+    let cfg_g = |i: u64| -> RawCfg {
+        let (q, b) = BIG[(i / 2) as usize];
+        RawCfg { h: if i % 2 == 0 { base_b() } else { base_a() }, q, b, sinks: vec![UNL, 48], light: true }
+    };
+    let ws = par::for_each_index(n_g, 1, |_| Worker::new(), |w, i| {
+        let cfg = cfg_g(i);
+        let bads = guarded(&mut w.st, "raw message", |st| local::check_raw(&cfg, st));
+        w.record(order_base + i, bads, || cfg.to_json());
+    });
+    merge(&mut total, ws);
+    order_base += n_g;
+
+    // 4. block R: bare headers whose length fields range over u64 classes
+    let raws = raw_header_space();
+    let mut w = Worker::new();
+    for (i, h) in raws.iter().enumerate() {
+        let bads = guarded(&mut w.st, "bare header", |st| local::check_raw_header(h, st));
+        w.record(order_base + i as u64, bads, || json!({"block": "rawhdr", "hdr": local::hdr_json(h)}));
+    }
+    merge(&mut total, vec![w]);
+    order_base += raws.len() as u64;
+
+    // 5. block T: builder-made typed / complex / aligned bodies
+    let typed = typed_space(tier);
+    samples.offer(|| typed[typed.len() / 3].to_json());
+    let ws = par::for_each_index(typed.len() as u64, 2, |_| Worker::new(), |w, i| {
+        let cfg = &typed[i as usize];
+        let bads = guarded(&mut w.st, "typed message", |st| local::check_typed(cfg, st));
+        w.record(order_base + i, bads, || cfg.to_json());
+    });
+    merge(&mut total, ws);
+    order_base += typed.len() as u64;
+
+    // 6. block S: server-side emission
+    let local_states = total.st.states;
+    let srv = server::run_all(&ctx, tier, &samples);
+    for (i, (b, case)) in srv.bad.iter().enumerate() {
+        total.record(order_base + i as u64, vec![b.clone()], || case.clone());
+    }
+
+    std::panic::set_hook(prev_hook);
+
+    // report violations in enumeration order
+    let mut found: Vec<(u64, String, String, Value)> = total.bad.iter().map(|(k, (o, w, c))| (*o, k.clone(), w.clone(), c.clone())).collect();
+    found.sort_by(|a, b| (a.0, &a.1).cmp(&(b.0, &b.1)));
+    for (_, k, w, c) in found {
+        ctx.violation(k, w, c);
+    }
+
+    let st = &total.st;
+    let inplace: u64 = st.inplace_by_cap.iter().sum();
+    let fresh: u64 = st.fresh_by_cap.iter().sum();
+    if !ctx.has_violation() {
+        let need = [
+            ("in-place executions of into_wire_bytes", inplace),
+            ("fresh-buffer executions of into_wire_bytes", fresh),
+            ("builder-made bodies", st.builder_inplace + st.builder_fresh),
+            ("headers with every field non-zero", st.hdr_all_nonzero),
+            ("headers with reserved bits set", st.hdr_reserved_nonzero),
+            ("headers with unknown format codes", st.hdr_unknown_formats),
+            ("short writes", st.sink_calls_short),
+            ("Pending polls", st.async_pendings),
+            ("encode-only (foreign spec) headers", st.encode_only),
+            ("server responses compared", srv.responses_compared),
+        ];
+        for (what, n) in need {
+            if n == 0 {
+                ctx.machinery(format!("vacuous exploration: no {what}"));
+            }
+        }
+        for r in [
+            "Header::encode", "Message::to_vec", "Message::write_to", "write_message", "write_message_streaming", "write_message_async",
+            "write_message_async[pending-sink]", "write_message_typed_slice", "write_message_complex_slice", "into_wire_bytes[in-place]",
+            "into_wire_bytes[fresh]", "MessageBuilder::build+to_vec", "Message::from_slice", "Message::from_slice_exact", "MessageView::from_slice",
+            "MessageView::from_slice_exact", "Header::decode", "read_message", "read_message_into", "read_message_async", "read_message_into_async",
+        ] {
+            if st.routes.get(r).copied().unwrap_or(0) == 0 {
+                ctx.machinery(format!("vacuous exploration: route {r} never executed"));
+            }
+        }
+        if st.path_divergence > 0 {
+            ctx.note(format!(
+                "into_wire_bytes took a different path than `capacity >= 48+q+b` predicts in {} executions (bytes still correct; path choice is not part of C01)",
+                st.path_divergence
+            ));
+        }
+        if st.builder_inplace == 0 || st.builder_fresh == 0 {
+            ctx.note(format!(
+                "builder-made typed bodies took the in-place path {} times and the fresh-buffer path {} times (documented: in-place when the query is set before the body); bytes are correct either way",
+                st.builder_inplace, st.builder_fresh
+            ));
+        }
+        if st.cap_inexact > 0 {
+            ctx.note(format!("allocator returned a larger capacity than requested in {} body buffers (classified by the measured capacity)", st.cap_inexact));
+        }
+    }
+
+    let cap_json = |a: &[u64; 5]| -> Value { json!(local::CAP_NAMES.iter().zip(a.iter()).map(|(n, c)| (n.to_string(), json!(c))).collect::<serde_json::Map<_, _>>()) };
+    let states = st.states + srv.states;
+    let transitions = st.transitions + srv.transitions;
+    let planned_states = n_fixtures as u64 + 5 * (n_l + n_h + n_g) + raws.len() as u64 + typed.len() as u64 + srv.planned;
+    if states != planned_states && !ctx.has_violation() {
+        ctx.machinery(format!("executed {states} configurations, planned {planned_states}"));
+    }
+    let coverage = json!({
+        "states": states,
+        "transitions": transitions,
+        "traces_validated_against_impl": transitions,
+        "samples": samples.take(),
+        "exhaustive": states == planned_states,
+        "planned_states": planned_states,
+        "rule": "every logical message of the stated product spaces is built and sent through every emission route and every parser of the crate; each result is compared with the field-table oracle (frames.rs), which is first anchored on the interop fixtures; server routes: the oracle encoding of the predicted response is compared with the bytes read from the socket/duplex",
+        "bound": {
+            "fixtures_reproduced_by_oracle": n_fixtures,
+            "block_L": {"headers_single_field_sweeps_around_2_bases": sweeps.len(), "query_lengths": lens, "body_lengths": lens, "capacity_relations": local::CAP_NAMES, "sinks_bytes_per_call_0_is_unlimited": sinks_l.iter().map(|&x| if x == UNL { 0 } else { x }).collect::<Vec<_>>(), "messages": n_l},
+            "block_H": {"header_product": prod.len(), "length_pairs": plens, "messages": n_h},
+            "block_G_beyond_64KiB": BIG,
+            "block_R_bare_headers_u64_length_classes": raws.len(),
+            "block_T_builder_bodies": {"configs": typed.len(), "elements": local::ELEMS.iter().map(|e| e.name()).collect::<Vec<_>>()},
+            "block_S_servers": srv.bound,
+        },
+        "alphabet": {"u8": U8C, "u16": U16C, "u32": U32C, "u64_id": U64C, "spec_encode_only": SPECC},
+        "nonvacuity": {
+            "local_configurations": local_states,
+            "into_wire_bytes_in_place": inplace,
+            "into_wire_bytes_fresh": fresh,
+            "in_place_by_capacity_relation": cap_json(&st.inplace_by_cap),
+            "fresh_by_capacity_relation": cap_json(&st.fresh_by_cap),
+            "path_prediction_divergences": st.path_divergence,
+            "builder_bodies_in_place": st.builder_inplace,
+            "builder_bodies_fresh": st.builder_fresh,
+            "builder_messages": st.builder_built,
+            "executions_per_route": st.routes,
+            "headers_with_every_field_nonzero": st.hdr_all_nonzero,
+            "headers_with_reserved_bits": st.hdr_reserved_nonzero,
+            "headers_with_unknown_format_codes": st.hdr_unknown_formats,
+            "encode_only_foreign_spec": st.encode_only,
+            "short_writes": st.sink_calls_short,
+            "async_pending_polls": st.async_pendings,
+            "parser_results_equal": st.parsed_ok,
+            "bytes_compared": st.bytes_compared,
+            "panics": st.panics,
+            "violating_comparisons": total.total_bad,
+            "server": srv.nonvacuity,
+        },
+    });
+    ctx.finish(
+        "model_checking",
+        coverage,
+        &[
+            "messages are built with header length fields consistent with their payloads (Message::new does not validate header.length; an inconsistent caller-made header is outside the enumerated space)",
+            "BEVE payload bytes of typed/complex/aligned bodies are taken from the builder (their content is C08's subject); C01 decides their framing",
+            "payload contents are one fixed aperiodic non-zero pattern per length; lengths beyond 64 KiB only at three representatives",
+            "server routes run over real loopback TCP (kernel behaviour as observed) and an in-memory duplex for the WebSocket server",
+        ],
+    )
+}
+
+pub fn replay(case: &Value) -> Result<(), String> {
+    let mut st = Stats::default();
+    let bads: Vec<Bad> = match case["block"].as_str().unwrap_or("") {
+        "raw" => local::check_raw(&RawCfg::from_json(case)?, &mut st),
+        "typed" => local::check_typed(&TypedCfg::from_json(case)?, &mut st),
+        "rawhdr" => local::check_raw_header(&local::hdr_from_json(&case["hdr"])?, &mut st),
+        "server" => server::replay(case)?,
+        "fixtures" => {
+            let ctx = Ctx::new("C01", Tier::Quick);
+            anchor_fixtures(&ctx, &mut st).1
+        }
+        other => return Err(format!("unknown case block {other:?}")),
+    };
+    if bads.is_empty() { Ok(()) } else { Err(bads.iter().map(|b| format!("{}: {}", b.key, b.what)).collect::<Vec<_>>().join("\n")) }
 }
